@@ -7,16 +7,9 @@ from props import _lay
 
 LEVEL = "proof"
 MODULE = "Phil.Props.C02"
-LEVEL_TEXT = ("Lean theorems about the parser model's building blocks (see evidence 'theorems'); the parser model itself "
-              "(tokenizer with both settings, collect_assigned_words, collect_objects, adopt, attribute assignment, "
-              "scan_for_start) is tied to /repo by a correspondence run on every rendering (full tree incl. ids, lines, "
-              "attribute values), and the property is evaluated on the implementation by the oracle: several independent "
-              "random layouts of each abstract tree (terminators, blanks, comments, continuations, dotted names, off regions, "
-              "'!' marks on scopes/definitions/attributes) must all parse to the generator's abstract tree.")
-LEVEL_NOTE = ("The full parser-soundness theorem `Spells t s -> parse s = ok t` of DESIGN §5 is not proved; what is proved is "
-              "listed in the evidence. Known finding D20 (quote characters inside a trailing # comment) is excluded from the "
-              "main stream and visited in its own stream.")
-TECHNIQUE = "Lean 4 lemmas on the parser model + differential correspondence + layout-grammar oracle"
+LEVEL_TEXT = "Lean theorems, all inputs of a layout grammar given as data: every well-formed layout of one abstract document parses to the same tree — flat documents with newline/;/comment terminators, backslash continuation lines, quoted continuation lines, multi-line quoted words, switched-off regions (#phil __OFF__ ... __ON__) as filler and a cut by #phil __END__ (layout3_independent, cut_tail_ignored), attribute lines and '!' on one attribute (attrs_layout_independent, bang_attribute_is_removal, bang_definition_keeps_attributes, scope-header attributes), nested scopes, dotted names = nested braces, '!' disables exactly one construct (layout_independent_nested, dotted_equals_nested, bang_disables_exactly_one(_nested)). Kernel-checked negative witnesses for every sharp edge. The parser model is tied to /repo by a correspondence run on every rendering (full tree incl. ids, lines, attribute values); the oracle requires several independent random layouts of each abstract tree to parse to the generator's tree on the implementation."
+LEVEL_NOTE = 'The grammars are separate (flat+continuations+regions; flat+attributes; nested without continuations); one grammar for whole documents is not yet proved — combinations rest on correspondence and oracle. Known finding D20 (quote character inside a trailing # comment) is outside the grammar (cmtSafe) and visited in its own stream.'
+TECHNIQUE = 'Lean 4 closed-form layout-independence theorems over a layout grammar + differential correspondence + layout-grammar oracle'
 RULE = ("abstract trees (depth 0-3, words of every quote style incl. multi-line, attributes of every kind, '!' marks) x "
         "3 random layouts each (layout intensity 0/0.5/1); non-trivial = tree has at least one object; distinct = distinct rendering")
 ASSUMPTIONS = ["renderer emits only layouts the property names; comments never end in a backslash and (outside the D20 stream) "
